@@ -42,11 +42,30 @@ def domain(ctx):
             # nothing but object identity distinguishes the nodes (equal ids, equal constants, equal kinds)
             cases.append({"shape": s, "node": i, "cls": "uniform"})
             cases.append({"shape": s, "node": i, "cls": "btn_sameid"})
+    # deep chains: rotation must not depend on how far below the root the node sits
+    def chain(n, side):
+        s = None
+        for _ in range(n):
+            s = (s, None) if side == "L" else (None, s)
+        return s
+
+    def zigzag(n):
+        s = None
+        for i in range(n):
+            s = (s, None) if i % 2 else (None, s)
+        return s
+    for deep in (40, 70, 130):
+        for sh in (chain(deep, "L"), chain(deep, "R"), zigzag(deep)):
+            for i in (1, 2, 3, deep // 2, 64, 65, 66, 67, deep - 2, deep - 1, deep):
+                if 1 <= i <= deep:
+                    cases.append({"shape": sh, "node": i, "cls": "btn"})
+                    if deep <= 70:
+                        cases.append({"shape": sh, "node": i, "cls": "expr"})
     rng = random.Random(ctx.seed)
     for _ in range(300 if ctx.quick else 5000):
         m = rng.randint(n + 1, 16)
         cases.append({"shape": random_shape(rng, m), "node": rng.randint(1, m), "cls": rng.choice(["btn", "expr", "uniform", "btn_sameid"])})
-    return cases, "every node of all %d shapes with <= %d nodes (plain nodes), of all shapes <= 5 nodes (expression nodes; nodes with equal ids / equal constants / equal kinds, distinguishable by identity only), + seeded random shapes up to 16 nodes" % (len(shapes.shapes_upto(n)), n)
+    return cases, "every node of all %d shapes with <= %d nodes (plain nodes), of all shapes <= 5 nodes (expression nodes; nodes with equal ids / equal constants / equal kinds, distinguishable by identity only), + chains and zig-zags of 40 / 70 / 130 nodes rotated near the root, around depth 64 and at the bottom + seeded random shapes up to 16 nodes" % (len(shapes.shapes_upto(n)), n)
 
 
 def run(ctx, cases=None):
